@@ -667,6 +667,11 @@ def build_cases(tier="quick"):
     from contracts import c02
 
     ref = [Case(f"{PROP}/sevm.Path.branch#conditions-owned", c.case, c.harness, replay=c.replay, sources=c.sources) for c in c02.path_cases() if "Path.branch" in c.unit or "Path.activate" in c.unit]
+    # vm.assume of one test must not restrict the tests run after it: the test's path owns its condition table (C11's unit)
+    from contracts import c11
+    from contracts.common import rewrap
+
+    ref += rewrap(PROP, c11.path_growth_cases(), "assume-scope", lambda c: "extend_path" in c.unit)
     return handler_cases() + handle_arm_cases() + delayed_error_cases() + ref
 
 
